@@ -227,7 +227,16 @@ def t_names():
                     stats.cls("spell:" + f)
                 n += 1
             stats.nt("name", name, canon(segs))
-    stats.subspaces.append({"name": "each of %d delicate member names x 5 query shapes x 6 spellings" % len(D.NASTY),
+    # all delicate names as siblings of one object: each name must select its own member, not a look-alike
+    everyone = {name: {"k": i} for i, name in enumerate(D.NASTY)}
+    for name in D.NASTY:
+        for segs in ([["c", [["n", name]]]], [["c", [["n", name]]], ["c", [["n", "k"]]]], [["d", [["n", name]]], ["c", [["n", "k"]]]]):
+            ast = ["q", "$", segs]
+            rng = random.Random(n)
+            for j in range(3):
+                judge(stats, ast, everyone, Renderer(rng if j else None, ws=0.2).query(ast, top=True), "names")
+                n += 1
+    stats.subspaces.append({"name": "each of %d delicate member names x 5 query shapes x 6 spellings; all names as siblings x 3 shapes x 3 spellings" % len(D.NASTY),
                             "size": n, "exhaustive": True})
     return stats
 
